@@ -7,9 +7,8 @@ every schedule within the deviation bound; the oracle looks at how accept() ende
 """
 import itertools
 
-from vlib.core import Acc
 from vlib.cosched import kit as K
-from vlib.cosched.explore import explore_scenario
+from vlib.cosched import harness as H
 from vlib.cosched.sched import Abort
 
 FLAVOURS = ["asyncio", "trio", "threading"]
@@ -184,37 +183,6 @@ def scenario_params(tier):
     return out
 
 
-def shard(spec):
-    total = explore_scenario(spec)
-    acc = Acc()
-    acc.evaluations = total["executions"]
-    acc.traces = total["executions"]
-    acc.transitions = total["points"]
-    acc.states = total["states"]
-    for outcome in total["outcomes"]:
-        acc.outcome((str(spec["params"]), outcome))
-    if total["executions"] > 1:
-        acc.nontrivial.add(str(spec["params"]).encode())
-    for sample in total["samples"][:1]:
-        if len(sample["choices"]) > 0:
-            acc.samples.append(sample)
-    acc.count("scenarios")
-    acc.count("diverged-prefixes", total["diverged"])
-    acc.count("unstable-violations", len(total["unstable"]))
-    acc.count("forks", total["forks"])
-    if total["capped"]:
-        acc.count("capped-scenarios")
-    for kind, n in total["point_kinds"].items():
-        acc.count("points:" + kind, n)
-    for infra in total["infra"]:
-        acc.count("infrastructure-errors")
-        acc.samples.append({"infrastructure": infra})
-    for violation in total["violations"]:
-        acc.violation(violation["key"], violation["what"],
-                      {"spec": spec, "choices": violation["choices"]})
-    return acc
-
-
 def run(ctx):
     bound = 1 if ctx.quick else 2
     specs = []
@@ -228,38 +196,19 @@ def run(ctx):
                      "drain": 5.0, "max_points": 6000, "free_switch_cost": 1},
             "budget": 4000 if ctx.quick else 60000,
         })
-    ctx.pmap(shard, specs)
-    infra = ctx.acc.counters.get("infrastructure-errors", 0)
-    ctx.meta.update(
+    ctx.pmap(H.shard, specs)
+    H.finish(
+        ctx, specs,
         rule="scenario product (flavour x failure kind x registration; instants x bystanders; "
              "double failures) x every schedule within the deviation bound (preemptions, "
              "non-default wake-up order, trio batch order); a scenario is non-trivial when "
              "more than one schedule of it was executed",
-        exhaustive=ctx.acc.counters.get("capped-scenarios", 0) == 0,
-        bounds={"deviation_bound": bound, "double_failure_bound": bound + (1 if ctx.quick else 0),
-                "scenarios": len(specs), "granularity": "synchronisation operations"},
-        caps_hit=["%d scenarios hit the per-scenario execution budget"
-                  % ctx.acc.counters["capped-scenarios"]]
-        if ctx.acc.counters.get("capped-scenarios") else [],
+        bounds={"deviation_bound": bound,
+                "double_failure_bound": bound + (1 if ctx.quick else 0),
+                "granularity": "synchronisation operations"},
+        assumptions=["a payload raising its own framework's cancellation exception is not "
+                     "driven"],
     )
-    ctx.assumptions += [
-        "scheduling points at synchronisation operations (see DESIGN.md 2.1); substrate "
-        "(asyncio Task/Future, trio, concurrent.futures) trusted between them",
-        "a payload raising its own framework's cancellation exception is not driven",
-    ]
-    if infra:
-        from vlib.core import InfrastructureError
-
-        raise InfrastructureError("%d executions had harness errors: %r" % (
-            infra, [s for s in ctx.acc.samples if isinstance(s, dict) and "infrastructure" in s][:3]))
 
 
-def replay(data):
-    from vlib.cosched.explore import replay_choices
-
-    result = replay_choices(data["spec"], data["choices"])
-    if result.get("diverged"):
-        return "replay diverged: %r" % (result["errors"],)
-    for line in result["log"]:
-        print("   ", line)
-    return "; ".join("%s: %s" % (k, w) for k, w in result["violations"]) or None
+replay = H.replay
